@@ -367,3 +367,22 @@ Proof.
   - cbn. unfold nt_ok. cbn. repeat split; try (right; lia); auto.
   - reflexivity.
 Qed.
+
+(* ---------- between two vectors, at the level of the represented lists ---------- *)
+Theorem C11_assignment_between_vectors_updates_the_list : forall L, wf_plist L = true ->
+  forall vd vs ld ls od os, RepO L vd ld od -> RepO L vs ls os ->
+  forall i j, (i < length ld)%nat -> (j < length ls)%nat ->
+  cnts_of (nth i ld []) = cnts_of (nth j ls []) ->
+  let r := ref_assign false L false vd (Z.of_nat i) vs (Z.of_nat j) in
+  RepO L (fst (fst r)) (upd i (nth j ls []) ld) od /\ RepO L (snd (fst r)) ls os.
+Proof. exact ref_assign_refines_update_two. Qed.
+Print Assumptions C11_assignment_between_vectors_updates_the_list.
+
+Theorem C11_swap_between_vectors_exchanges : forall L, wf_plist L = true ->
+  forall vd vs ld ls od os, RepO L vd ld od -> RepO L vs ls os ->
+  forall i j, (i < length ld)%nat -> (j < length ls)%nat ->
+  cnts_of (nth i ld []) = cnts_of (nth j ls []) ->
+  let r := ref_swap L false vd (Z.of_nat i) vs (Z.of_nat j) in
+  RepO L (fst (fst r)) (upd i (nth j ls []) ld) od /\ RepO L (snd (fst r)) (upd j (nth i ld []) ls) os.
+Proof. exact ref_swap_refines_exchange_two. Qed.
+Print Assumptions C11_swap_between_vectors_exchanges.
